@@ -99,6 +99,9 @@ func VC06_SignedUpdateLayout() {
 	_, m, err := SignEFIVariable(v, vPayload(payload), signer, cert)
 	t1 := time.Now().UTC()
 	vsym.Assert(err == nil, "signing succeeds")
+	if !vsym.Symbolic() && t0.Format("060102150405") != t1.Format("060102150405") {
+		return // native replay only: the wall clock crossed a second boundary during the call; nothing to compare
+	}
 	out := m.Bytes()
 	vsym.Assert(len(out) >= 40, "output holds the descriptor header")
 
